@@ -2047,3 +2047,17 @@ TABLE["C19"] += [
       (IP + "type.py", "        if instantiations:\n            if isinstance(instantiations, Sequence):\n                self.instantiations = instantiations  # type: ignore\n            else:\n                self.instantiations = instantiations.asList()\n        else:\n            self.instantiations = []\n",
        "        self.instantiations = list(instantiations)\n\n    def copy(self):\n        return Typename(self.namespaces + [self.name], [inst.copy() for inst in self.instantiations])\n")),
 ]
+TABLE["C18"] += [
+    B("char-wrapped-through-a-c-string", {"K16"},
+      (H, "  mxArray *result = scalar(mxUINT32OR64_CLASS);\n  *(char*)mxGetData(result) = value;\n  return result;", "  const char str[2] = { value, '\\0' };\n  return mxCreateString(str);")),
+    B("out-of-range-doubles-saturated-for-every-type", {"K16"},
+      (H, "      // hope for the best!\n      return (T) mxGetScalar(array);", "    {\n      const double value = mxGetScalar(array);\n      if (value >= (double) std::numeric_limits<T>::max()) return std::numeric_limits<T>::max();\n      if (value <= (double) std::numeric_limits<T>::lowest()) return std::numeric_limits<T>::lowest();\n      return (T) value;\n    }"),
+      (H, "#include <list>\n", "#include <limits>\n#include <list>\n")),
+    N("out-of-range-doubles-saturated-for-integer-types",
+      (H, "      // hope for the best!\n      return (T) mxGetScalar(array);", "    {\n      const double value = mxGetScalar(array);\n      if (std::numeric_limits<T>::is_integer) {\n        if (value >= (double) std::numeric_limits<T>::max()) return std::numeric_limits<T>::max();\n        if (value <= (double) std::numeric_limits<T>::lowest()) return std::numeric_limits<T>::lowest();\n      }\n      return (T) value;\n    }"),
+      (H, "#include <list>\n", "#include <limits>\n#include <list>\n")),
+    B("int-stored-through-a-short-pointer", {"K16", "K3"},
+      (H, "  *(int*)mxGetData(result) = value;", "  *(short*)mxGetData(result) = value;")),
+    B("size-t-array-created-32-bit", {"K16", "K3"},
+      (H, "mxArray* wrap<size_t>(const size_t& value) {\n  mxArray *result = scalar(mxUINT32OR64_CLASS);", "mxArray* wrap<size_t>(const size_t& value) {\n  mxArray *result = scalar(mxUINT32_CLASS);")),
+]
